@@ -926,12 +926,13 @@ theorem good_append_body {s : Sheet} {r : Rule} (hr : r.isNs = false) (h : Good 
 
 /-! ## `rule.prefix = q` -/
 
-theorem good_setPrefix {pre post : Sheet} {n : NsRule} {q : Cps} (h : Good (pre ++ .ns n :: post))
-    (hq1 : q ∉ (nsPairs pre).map (·.1)) (hq2 : q ∉ (nsPairs post).map (·.1)) :
-    Good (pre ++ .ns (n.setPrefix q) :: post) where
+/-- replacing an @namespace rule by one for the same URI whose prefix no other rule has -/
+theorem good_replace_ns {pre post : Sheet} {n m : NsRule} (h : Good (pre ++ .ns n :: post)) (hm : m.uri = n.uri)
+    (hq1 : m.pfx ∉ (nsPairs pre).map (·.1)) (hq2 : m.pfx ∉ (nsPairs post).map (·.1)) :
+    Good (pre ++ .ns m :: post) where
   pfxNodup := by
     have := h.pfxNodup
-    simp only [nsPairs_append, nsPairs_cons_ns, List.map_append, List.map_cons, NsRule.setPrefix] at this ⊢
+    simp only [nsPairs_append, nsPairs_cons_ns, List.map_append, List.map_cons] at this ⊢
     rw [List.nodup_append] at this ⊢
     obtain ⟨h1, h2, h3⟩ := this
     simp only [List.nodup_cons] at h2 ⊢
@@ -940,11 +941,48 @@ theorem good_setPrefix {pre post : Sheet} {n : NsRule} {q : Cps} (h : Good (pre 
     rcases List.mem_cons.mp hb with hb | hb
     · subst hb; intro e; subst e; exact hq1 ha
     · exact h3 a ha b (List.mem_cons_of_mem _ hb)
-  uriNodup := by simpa [nsUris, nsPairs_append, NsRule.setPrefix] using h.uriNodup
+  uriNodup := by simpa [nsUris, nsPairs_append, hm] using h.uriNodup
   declared := by
     intro u hu
     have hu' : u ∈ usedUris (pre ++ .ns n :: post) := by simpa [usedUris, collect_append] using hu
-    simpa [nsUris, nsPairs_append, NsRule.setPrefix] using h.declared u hu'
+    simpa [nsUris, nsPairs_append, hm] using h.declared u hu'
+
+theorem good_setPrefix {pre post : Sheet} {n : NsRule} {q : Cps} (h : Good (pre ++ .ns n :: post))
+    (hq1 : q ∉ (nsPairs pre).map (·.1)) (hq2 : q ∉ (nsPairs post).map (·.1)) :
+    Good (pre ++ .ns (n.setPrefix q) :: post) :=
+  good_replace_ns (m := n.setPrefix q) h rfl hq1 hq2
+
+/-- removing any rule from the list directly keeps the sheet consistent unless it is the declaration of a URI
+that is in use -/
+theorem good_rawDel {pre post : Sheet} {r : Rule} (h : Good (pre ++ r :: post))
+    (hr : ∀ n, r = .ns n → n.uri ∉ usedUris (pre ++ r :: post)) : Good (pre ++ post) := by
+  cases r with
+  | ns n =>
+    apply h.of_pairs_sublist
+    · simp [nsPairs_append]
+    · intro u hu
+      have hu' : u ∈ usedUris (pre ++ Rule.ns n :: post) := by simpa [usedUris, collect_append] using hu
+      have hne : u ≠ n.uri := fun e => hr n rfl (e ▸ hu')
+      have hdec := h.declared u hu'
+      rw [nsUris_split_ns] at hdec
+      rw [nsUris_append]
+      simp only [List.mem_append, List.mem_cons] at hdec ⊢
+      rcases hdec with h1 | h1 | h1
+      · exact Or.inl h1
+      · exact absurd h1 hne
+      · exact Or.inr h1
+  | style x =>
+    have hd := good_deleteRule (s := pre ++ Rule.style x :: post) (s' := pre ++ post) (i := pre.length) h
+      (by simp [deleteRule, eraseIdx_split])
+    exact hd
+  | media x =>
+    have hd := good_deleteRule (s := pre ++ Rule.media x :: post) (s' := pre ++ post) (i := pre.length) h
+      (by simp [deleteRule, eraseIdx_split])
+    exact hd
+  | other x =>
+    have hd := good_deleteRule (s := pre ++ Rule.other x :: post) (s' := pre ++ post) (i := pre.length) h
+      (by simp [deleteRule, eraseIdx_split])
+    exact hd
 
 /-! ## `insertRule` of an @namespace rule -/
 
@@ -1332,10 +1370,14 @@ def SrcOk : SrcRule → Prop
 * a style rule object whose selectors were resolved elsewhere and refer to URIs this sheet does not declare
   (C15-foreign-style-rule),
 * `parse` with a non-empty dict of namespaces (C15-tuple-namespaces), or of a text with an @variables rule
-  (C15-namespace-after-variables). -/
+  (C15-namespace-after-variables),
+* `rule.cssText = '@namespace p …'` with a prefix another rule of the sheet has (C15-csstext-prefix-collision),
+* `del sheet.cssRules[i]` / `.pop(i)` on the declaration of a URI that is in use (C15-rulelist-bypass). -/
 def OpOk (s : Sheet) : Op → Prop
   | .parse init src => init = [] ∧ ∀ r ∈ src, SrcOk r
   | .insStyleObj sels _ _ => ∀ u ∈ selsUris sels, u ∈ nsUris s
+  | .setNsText i p _ _ _ _ => prefixTaken s i p = false
+  | .rawDel i => ∀ n, s[i]? = some (.ns n) → n.uri ∉ usedUris s
   | _ => True
 
 theorem anyNsPfx_false {q : Cps} {s : Sheet} (h : anyNsPfx q s = false) : q ∉ (nsPairs s).map (·.1) := by
